@@ -218,6 +218,53 @@ theorem isometric_latitude (e : ℝ) (he0 : 0 ≤ e) (he1 : e < 1) :
       have : 0 < 1 - e ^ 2 := by nlinarith
       positivity
 
+/-- `arctan (k · tan φ)` with `k > 0` is strictly increasing between the poles -/
+theorem arctan_mul_tan_strictMonoOn (k : ℝ) (hk : 0 < k) :
+    StrictMonoOn (fun x => Real.arctan (k * Real.tan x)) (Set.Ioo (-(Real.pi / 2)) (Real.pi / 2)) := by
+  intro a ha b hb hab
+  exact Real.arctan_strictMono (mul_lt_mul_of_pos_left (Real.strictMonoOn_tan ha hb hab) hk)
+
+/-- **the geocentric latitude is strictly increasing between the poles**, and stays between them -/
+theorem geocentric_latitude_increasing (el : Ellipsoid ℝ) (hf0 : 0 ≤ el.f) (hf1 : el.f < 1) :
+    StrictMonoOn el.latitudeGeographicToGeocentric (Set.Ioo (-(Real.pi / 2)) (Real.pi / 2)) ∧
+    ∀ phi, -(Real.pi / 2) < el.latitudeGeographicToGeocentric phi ∧ el.latitudeGeographicToGeocentric phi < Real.pi / 2 := by
+  have hk : 0 < 1 - el.f * (2 - el.f) := by nlinarith
+  have key : el.latitudeGeographicToGeocentric = fun x => Real.arctan ((1 - el.f * (2 - el.f)) * Real.tan x) := by
+    funext x
+    simp [Ellipsoid.latitudeGeographicToGeocentric, one, two]
+  rw [key]
+  exact ⟨arctan_mul_tan_strictMonoOn _ hk, fun phi => ⟨Real.neg_pi_div_two_lt_arctan _, Real.arctan_lt_pi_div_two _⟩⟩
+
+/-- **the reduced latitude is strictly increasing between the poles**, and stays between them -/
+theorem reduced_latitude_increasing (el : Ellipsoid ℝ) (hf1 : el.f < 1) :
+    StrictMonoOn el.latitudeGeographicToReduced (Set.Ioo (-(Real.pi / 2)) (Real.pi / 2)) ∧
+    ∀ phi, -(Real.pi / 2) < el.latitudeGeographicToReduced phi ∧ el.latitudeGeographicToReduced phi < Real.pi / 2 := by
+  have hk : 0 < 1 - el.f := by linarith
+  have key : el.latitudeGeographicToReduced = fun x => Real.arctan ((1 - el.f) * Real.tan x) := by
+    funext x
+    exact (reduced_latitude el hf1 x).1
+  rw [key]
+  exact ⟨arctan_mul_tan_strictMonoOn _ hk, fun phi => ⟨Real.neg_pi_div_two_lt_arctan _, Real.arctan_lt_pi_div_two _⟩⟩
+
+/-- on a flattened ellipsoid the geocentric and the reduced latitude of a northern point lie south of its
+geographic latitude, the geocentric one furthest: `ψ ≤ β ≤ φ` for `0 ≤ φ < π/2` -/
+theorem latitudes_ordered (el : Ellipsoid ℝ) (hf0 : 0 ≤ el.f) (hf1 : el.f < 1) (phi : ℝ) (h0 : 0 ≤ phi) (h2 : phi < Real.pi / 2) :
+    el.latitudeGeographicToGeocentric phi ≤ el.latitudeGeographicToReduced phi ∧ el.latitudeGeographicToReduced phi ≤ phi := by
+  have ht : 0 ≤ Real.tan phi := Real.tan_nonneg_of_nonneg_of_le_pi_div_two h0 h2.le
+  have e1 : el.latitudeGeographicToGeocentric phi = Real.arctan ((1 - el.f * (2 - el.f)) * Real.tan phi) := by
+    simp [Ellipsoid.latitudeGeographicToGeocentric, one, two]
+  rw [e1, (reduced_latitude el hf1 phi).1]
+  constructor
+  · apply Real.arctan_strictMono.monotone
+    have : 1 - el.f * (2 - el.f) ≤ 1 - el.f := by nlinarith
+    exact mul_le_mul_of_nonneg_right this ht
+  · have hphi : Real.arctan (Real.tan phi) = phi := Real.arctan_tan (by linarith [Real.pi_pos]) h2
+    calc Real.arctan ((1 - el.f) * Real.tan phi) ≤ Real.arctan (Real.tan phi) := by
+          apply Real.arctan_strictMono.monotone
+          have : (1 - el.f) * Real.tan phi ≤ 1 * Real.tan phi := mul_le_mul_of_nonneg_right (by linarith) ht
+          simpa using this
+      _ = phi := hphi
+
 /-! ### the built-in table -/
 
 /-- **every name in the built-in ellipsoid table carries a semi-major axis and a reciprocal
